@@ -524,6 +524,38 @@ func parseAndValidateISO(img isoImage, announcedSize int64, ps3 bool, titleID st
 		}
 		files(h.Root)
 	}
+	// both hierarchies describe the same volume: same shape, same file extents
+	if res.Primary != nil && res.Joliet != nil {
+		var cmpH func(a, b *isoNode, path string)
+		cmpH = func(a, b *isoNode, path string) {
+			var af, bf []string
+			var ad, bd []*isoNode
+			for _, c := range a.Children {
+				if c.IsDir {
+					ad = append(ad, c)
+				} else {
+					af = append(af, fmt.Sprint(c.Extents))
+				}
+			}
+			for _, c := range b.Children {
+				if c.IsDir {
+					bd = append(bd, c)
+				} else {
+					bf = append(bf, fmt.Sprint(c.Extents))
+				}
+			}
+			sort.Strings(af)
+			sort.Strings(bf)
+			if len(ad) != len(bd) || strings.Join(af, "|") != strings.Join(bf, "|") {
+				p.add("hierarchies-disagree", "directory %q: primary hierarchy has %d directories / %d files, Joliet has %d / %d, or their file extents differ", path, len(ad), len(af), len(bd), len(bf))
+				return
+			}
+			for i := range ad {
+				cmpH(ad[i], bd[i], path+"/"+ad[i].Name)
+			}
+		}
+		cmpH(res.Primary.Root, res.Joliet.Root, "")
+	}
 	// overlap check
 	sort.Slice(spans, func(i, j int) bool { return spans[i].a < spans[j].a })
 	for i := 1; i < len(spans); i++ {
